@@ -455,6 +455,11 @@ func runExact(c *hlib.Ctx, g gen, n int) {
 			seg := model3d.Segment{s0, s1}
 			impl := hlib.Guard(func() string {
 				p := seg.Closest(q)
+				if segBoundary(arr(s0), arr(s1), arr(q)) {
+					// the exact projection is an end point: the code may take either branch
+					c.Stat("x.seg3/boundary", 1)
+					return "b"
+				}
 				if p == s0 {
 					c.Stat("x.seg3/end0", 1)
 					return "0 " + r3(p)
@@ -480,6 +485,9 @@ func runExact(c *hlib.Ctx, g gen, n int) {
 			seg := model2d.Segment{s0, s1}
 			impl := hlib.Guard(func() string {
 				p := seg.Closest(q)
+				if segBoundary(arr(s0), arr(s1), arr(q)) {
+					return "b"
+				}
 				if p == s0 {
 					return "0 " + r2(p)
 				} else if p == s1 {
@@ -496,6 +504,12 @@ func runExact(c *hlib.Ctx, g gen, n int) {
 			q := g.dy3(8, 2)
 			impl := hlib.Guard(func() string {
 				p := tr.Closest(q)
+				for k := 0; k < 3; k++ {
+					if segBoundary(arr(t[k]), arr(t[(k+1)%3]), arr(q)) {
+						c.Stat("x.tri3/boundary", 1)
+						return "b"
+					}
+				}
 				for k := 0; k < 3; k++ {
 					if p == t[k] {
 						c.Stat("x.tri3/vertex", 1)
@@ -589,4 +603,17 @@ func arr(v interface{}) []float64 {
 		return []float64{x.X, x.Y}
 	}
 	panic("arr")
+}
+
+// segBoundary reports (exactly) whether the orthogonal projection of q onto the line s0 s1 is one
+// of the end points: v1.(q-s0) == 0 or == v1.v1.
+func segBoundary(s0, s1, q []float64) bool {
+	a, b := new(big.Rat), new(big.Rat)
+	for i := range s0 {
+		v := new(big.Rat).Sub(ratOf(s1[i]), ratOf(s0[i]))
+		w := new(big.Rat).Sub(ratOf(q[i]), ratOf(s0[i]))
+		a.Add(a, new(big.Rat).Mul(v, v))
+		b.Add(b, new(big.Rat).Mul(v, w))
+	}
+	return b.Sign() == 0 || b.Cmp(a) == 0
 }
